@@ -90,20 +90,32 @@ def gen_cleanup(rng):
     then a handler that re-raises), as in the repo's own `cleanupper` test coroutine."""
     k = [0]
 
-    def aw():
-        k[0] += 1
-        return ("fut", k[0]) if rng.random() < 0.7 else ("tok", k[0])
+    futs = []
 
-    def cleanup():
+    def aw(reuse_ok=False):
+        # only the first await executed after the abort may wait for a Future waited for before: a
+        # Future that was yielded *inside* close() keeps its blocking flag (CPython swallows the yield),
+        # awaiting it once more is an error of the body, not a subject of this property
+        if reuse_ok and futs and rng.random() < 0.5:
+            return ("fut", rng.choice(futs))
+        k[0] += 1
+        if rng.random() < 0.7:
+            futs.append(k[0])
+            return ("fut", k[0])
+        return ("tok", k[0])
+
+    def cleanup(reuse_ok=False):
         out = [("log", 10 + k[0])]
         if rng.random() < 0.85:
-            out.append(aw())
+            out.append(aw(reuse_ok))
         if rng.random() < 0.3:
             out = [("try", out, [], [("log", 30 + k[0])])]
         out.append(("log", 20 + k[0]))
         return out
-    inner = [("try", [("log", 1), aw(), ("log", 2)],
-              [("BaseException", [("log", 3), aw(), ("reraise",)])] if rng.random() < 0.25 else [], cleanup())]
+    first = [("log", 1), aw(), ("log", 2)]
+    with_handler = rng.random() < 0.25
+    handler = [("BaseException", [("log", 3), aw(True), ("reraise",)])] if with_handler else []
+    inner = [("try", first, handler, cleanup(not with_handler))]
     depth = rng.choice([0, 1, 1, 2, 2, 3])
     body = inner
     for lvl in range(depth):
@@ -142,18 +154,22 @@ def run_sync_real(stmts, loop, variant):
 
 
 def _run_sync_real(stmts, loop, variant):
+    """variants: await_sync / syncfunction on a native coroutine; `*_gen`: on a generator-based
+    coroutine (`@types.coroutine`) that runs the same body"""
     env = cm.Env(stmts, loop)
-    if variant == "syncfunction":
+    gen = variant.endswith("_gen")
+    if variant.startswith("syncfunction"):
         holder = {}
 
         def factory():
             holder["c"] = env.main()
-            return holder["c"]
+            return cm.gen_coroutine(holder["c"]) if gen else holder["c"]
         out, cause = outcome(asynkit.syncfunction(factory))
         c = holder["c"]
     else:
         c = env.main()
-        out, cause = outcome(lambda: asynkit.await_sync(c))
+        g = cm.gen_coroutine(c) if gen else c
+        out, cause = outcome(lambda: asynkit.await_sync(g))
     line = f"out={out} ; cause={cause} ; phase={cm.phase(c)} ; log={env.log()} ; {env.cv_line()}"
     return line, env, c
 
@@ -175,6 +191,8 @@ def _native_expect(stmts, loop):
         first = ("x", cm.cname(e))
     else:
         first = ("y", y)
+        if isinstance(y, asyncio.Future):
+            y._asyncio_future_blocking = False      # the receiver's half of the handshake (what a Task does)
     res = {"first": first}
     if first[0] != "y":
         res["cv"] = env.cv_line()
@@ -203,8 +221,11 @@ def _native_expect(stmts, loop):
             # coroutine must nevertheless end up finalized — natively that is what close() does.
             res["abort"] = "yield"
             res["keep2"] = y2
+            if isinstance(y2, asyncio.Future):
+                y2._asyncio_future_blocking = False
             res["caught"] = "cSyncAbort" in env.L[n_before:]
             if not res["caught"]:
+                n_yields = cm.Tok.yields
                 try:
                     c.close()
                     res["close"] = "-"
@@ -212,6 +233,11 @@ def _native_expect(stmts, loop):
                     res["close"] = "x:" + cm.cname(e)
                 except BaseException as e:  # noqa: BLE001
                     res["close"] = "x:" + cm.cname(e)
+                # a suspension *inside* close() (GeneratorExit being handled) is swallowed by CPython
+                # together with "coroutine ignored GeneratorExit", possibly in a nested frame whose error
+                # is then replaced: visible as a token/bare yield counted, or a Future left blocking
+                res["yield_in_close"] = cm.Tok.yields != n_yields or any(
+                    f._asyncio_future_blocking for f in env.F.values())
                 if asynkit.coro_is_finished(c):
                     res["cv"] = env.cv_line()
         res["log"] = env.log()
@@ -257,6 +283,11 @@ def judge_sync(stmts, loop, variant="await_sync"):
         tags.add(f"nested-depth-{depth_of(stmts)}")
     if "cset" in cm.sexp(stmts):
         tags.add("contextvar-writes")
+    if variant.endswith("_gen"):
+        tags.add("generator-based-coroutine")
+    futs_used = [x for x in cm.sexp(stmts).replace("(", " ").replace(")", " ").split("fut ")[1:]]
+    if len({x.split()[0] for x in futs_used}) < len(futs_used):
+        tags.add("same-future-awaited-again")
     if exp["first"][0] == "x" and exp["first"][1] in ("InvalidState", "RT.other", "RT.stopiter", "GenExit"):
         tags.add("body-raises-" + exp["first"][1])
     if exp["first"][0] != "y":
@@ -278,7 +309,8 @@ def judge_sync(stmts, loop, variant="await_sync"):
         tags.add("suspends-on-future" if on_future else "suspends-on-token")
         if "l" in a["log"] or "c" in a["log"]:
             tags.add("suspension-inside-try-or-after-effects")
-        if exp["abort"] == "yield" and (exp["caught"] or not exp["finished"] or exp.get("close") == "x:RT.ignoredGE"):
+        if exp["abort"] == "yield" and (exp["caught"] or not exp["finished"] or exp.get("close") == "x:RT.ignoredGE"
+                                       or exp.get("yield_in_close")):
             # abort caught by a handler and a new suspension, or clean-up that even ignores
             # GeneratorExit (in the coroutine itself or in a nested frame, which CPython then drops
             # with "coroutine ignored GeneratorExit"): no claim
@@ -471,6 +503,8 @@ def gen_aiter(rng):
 
 def key_of(kind, bad):
     w = bad[0]
+    if "FE" in str(bad[1]) and "InvalidState" in str(bad[2]):
+        return "c05:await_sync:falsy-exception"       # CoroStart.result() tests the exception with `if not exc:`
     if "during clean-up" in w:
         slug = "cleanup-future-left-blocking"
     elif "Future" in w:
@@ -506,7 +540,7 @@ def explore_sync(ctx, cases, loop, label=""):
         if bad is not None:
             small = cm.shrink_prog(stmts, lambda p: (judge_sync(p, loop, variant)[2] or ("",))[0] == bad[0])
             b2 = judge_sync(small, loop, variant)[2] or bad
-            ctx.violation(key_of(variant if "context-variable" in b2[0] else "await_sync", b2), f"{label}{b2[0]}",
+            ctx.violation(key_of(variant.replace("_gen", "") if "context-variable" in b2[0] else ("syncfunction-generator-coroutine" if variant == "syncfunction_gen" and "result differs" in b2[0] else "await_sync"), b2), f"{label}{b2[0]}",
                           {"kind": "sync", "variant": variant, "prog": small, "source": cm.source(small)},
                           expected=b2[1], observed=b2[2],
                           theorem="Asynkit.C05.awaitSync_complete / awaitSync_abort / awaitSync_leaves_awaited")
@@ -533,7 +567,8 @@ def explore_aiter(ctx, cases, loop, label=""):
         line = "aiter | %d | %s" % (n, " ; ".join(cm.sexp(p) for p in progs) if progs else "")
         ctx.case(line, sorted(tags))
         if exp is not None and real != exp:
-            ctx.violation("c05:aiter_sync:differs-from-async-for",
+            ctx.violation("c05:await_sync:falsy-exception" if ("x:FE" in exp and "x:InvalidState" in real)
+                          else "c05:aiter_sync:differs-from-async-for",
                           f"{label}aiter_sync differs from native `async for`",
                           {"kind": "aiter", "progs": progs, "n": n}, expected=exp, observed=real,
                           theorem="Asynkit.C05.aiterSync_eq")
@@ -583,7 +618,8 @@ def run(ctx):
         l0, r0 = explore_sync(ctx, corpus_cases(), loop, label="corpus: ")
         n = 80000 if ctx.thorough() else 3000
         cases = [(gen_cleanup(rng) if i % 10 == 0 else gen_sync(rng),
-                  "syncfunction" if rng.random() < 0.2 else "await_sync") for i in range(n)]
+                  rng.choice(["await_sync"] * 13 + ["syncfunction"] * 3 + ["syncfunction_gen"] * 2 + ["await_sync_gen"] * 2))
+                 for i in range(n)]
         l1, r1 = explore_sync(ctx, cases, loop)
         for c in cases[:3]:
             ctx.sample("sync | " + cm.sexp(c[0]))
